@@ -9,8 +9,8 @@
 //! only); a program it produces and the compiler rejects is reported by the check.
 //!
 //! Kept out on purpose (see docs/notes-machine.md): any use of a `&[]T` parameter without `&`
-//! (open finding: panic), `&v` of a view (open finding: panic), element access through a `&[N]T`
-//! parameter (finding: invalid IR), views of arrays of pointers (invalid IR, seen by the types group),
+//! (open finding: panic), `&v` of a view (open finding: panic), views of arrays of pointers (invalid IR,
+//! seen by the types group), functions returning pointers (docs silent),
 //! more than one call among sibling operands of one statement and calls with `&` arguments next to
 //! other reads (evaluation order is not documented), char8 arithmetic, printing of pointers.
 use pvh::rng::Rng;
@@ -123,10 +123,10 @@ struct PlaceRef {
 }
 
 impl PlaceRef {
-    /// element access through a `&[N]T` parameter gives invalid IR (finding): such parameters are only
-    /// measured (`|x|`) and passed on
+    /// element access through a `&[N]T` parameter gave invalid IR (finding F-M1, fixed in /repo 2b93115);
+    /// the shape is part of the generated family again
     fn no_index(&self) -> bool {
-        self.root_param && self.steps.is_empty() && matches!(&self.ty, Ty::Ptr(e) if matches!(**e, Ty::Arr(..)))
+        false
     }
     /// (base type after all dereferences, number of pointer levels)
     fn base(&self) -> (&Ty, usize) {
@@ -169,6 +169,10 @@ struct Gen {
     in_const: bool,
     /// generating the condition of an `if`: a structure literal there does not parse (its brace opens the block)
     in_cond: bool,
+    /// per open block: the label names that occur textually in it so far (nested blocks included)
+    label_sets: Vec<std::collections::BTreeSet<String>>,
+    /// names of labels that will be placed later in an enclosing block
+    pending_labels: Vec<String>,
 }
 
 impl Gen {
@@ -197,6 +201,40 @@ impl Gen {
     }
     fn depth(&self) -> usize {
         self.scopes.len()
+    }
+    // Labels come from a small pool so that equal names occur in different scopes (the label rule: a label
+    // must not share its name with another label of the same block -- nested blocks included, since a later
+    // label of an enclosing block clashes with an earlier inner one -- nor with a later label of an
+    // enclosing block; sibling blocks and different functions may reuse names).
+    /// a name for a label that will be placed in the block at `level` of the label stack (`None`: in a block yet to be opened)
+    fn choose_label(&mut self, level: Option<usize>) -> String {
+        const POOL: [&str; 4] = ["end", "out", "next", "done"];
+        let start = self.rng.below(POOL.len());
+        for k in 0..POOL.len() {
+            let name = POOL[(start + k) % POOL.len()];
+            let used_here = level.map(|l| self.label_sets[l].contains(name)).unwrap_or(false);
+            if !used_here && !self.pending_labels.iter().any(|p| p == name) {
+                self.pending_labels.push(name.to_string());
+                return name.to_string();
+            }
+        }
+        let name = self.fresh("lbl");
+        self.pending_labels.push(name.clone());
+        name
+    }
+    /// the label is written now, in the innermost open block
+    fn place_label(&mut self, name: &str) {
+        self.pending_labels.retain(|p| p != name);
+        self.label_sets.last_mut().unwrap().insert(name.to_string());
+    }
+    fn open_block(&mut self) {
+        self.scopes.push(Vec::new());
+        self.label_sets.push(Default::default());
+    }
+    fn close_block(&mut self) {
+        self.scopes.pop();
+        let inner = self.label_sets.pop().unwrap();
+        self.label_sets.last_mut().unwrap().extend(inner);
     }
     fn declare(&mut self, name: &str, ty: Ty, hidden: bool) {
         let depth = self.depth();
@@ -873,6 +911,109 @@ impl Gen {
             return false;
         }
         let f = self.fns[self.rng.below(self.fns.len())].clone();
+        self.call_fn(&f, out)
+    }
+    /// print a few cells of the current function (what a call may or may not have changed)
+    fn observe(&mut self, out: &mut Vec<Value>) {
+        let cells: Vec<PlaceRef> = self.places().into_iter().filter(|p| matches!(p.base().0, Ty::Prim(_))).collect();
+        if cells.is_empty() {
+            return;
+        }
+        for _ in 0..(1 + self.rng.below(3)) {
+            let p = &cells[self.rng.below(cells.len())];
+            out.push(json!({"k": "P", "e": p.reference(0)}));
+        }
+    }
+    /// declare a variable that can serve as the argument for a parameter of type t
+    fn declare_for(&mut self, t: &Ty, minlen: usize, out: &mut Vec<Value>) {
+        self.calls_left = 0;
+        let target: Ty = match t {
+            Ty::View(e) => arr(minlen.max(1) + self.rng.below(2), (**e).clone()),
+            Ty::Ptr(inner) => match &**inner {
+                Ty::View(e) => arr(minlen.max(1) + self.rng.below(2), (**e).clone()),
+                Ty::Ptr(b) => {
+                    // a pointer variable whose address can be taken: first something for it to point to
+                    let b = (**b).clone();
+                    if self.address_candidates(&ptr(b.clone()), 0).is_empty() {
+                        self.declare_for(&ptr(b.clone()), 0, out);
+                    }
+                    let c = self.address_candidates(&ptr(b.clone()), 0);
+                    if c.is_empty() {
+                        return;
+                    }
+                    let name = self.fresh("r");
+                    let e = c[self.rng.below(c.len())].clone();
+                    out.push(json!({"k": "V", "x": name, "ty": ty_json(&ptr(b.clone())), "e": e}));
+                    self.declare(&name, ptr(b), false);
+                    return;
+                }
+                other => other.clone(),
+            },
+            other => other.clone(),
+        };
+        if !self.initialisable(&target) {
+            return;
+        }
+        let prefix = match &target {
+            Ty::Prim(_) => "v",
+            Ty::Arr(..) => "a",
+            _ => "s",
+        };
+        let name = self.fresh(prefix);
+        let e = self.value_of(&target, 1);
+        out.push(json!({"k": "V", "x": name, "ty": ty_json(&target), "e": e}));
+        self.declare(&name, target, false);
+    }
+    /// declare what is missing so that f can be called, call it, and look at the caller's cells
+    fn call_with_setup(&mut self, f: &FnSig, out: &mut Vec<Value>) {
+        for (_, t, minlen) in &f.params {
+            self.calls_left = 0;
+            let missing = match t {
+                Ty::Ptr(_) => self.address_candidates(t, *minlen).is_empty() || self.rng.chance(20),
+                Ty::View(_) => self.rng.chance(40),
+                Ty::Named(_) if self.is_struct(t) => !self.places().iter().any(|p| p.base().0 == t) || self.rng.chance(20),
+                _ => false,
+            };
+            if missing {
+                self.declare_for(t, *minlen, out);
+            }
+        }
+        if self.call_fn(f, out) {
+            self.observe(out);
+        }
+    }
+    /// a statement of the callee that uses its parameter
+    fn touch_param(&mut self, v: &Variable, out: &mut Vec<Value>) {
+        self.calls_left = 0;
+        let root = PlaceRef { x: v.name.clone(), steps: Vec::new(), ty: v.ty.clone(), writable: false, minlen: v.minlen, depth: 0, through_ptr: false, root_param: true };
+        let mut all = Vec::new();
+        self.walk(root, 0, &mut all);
+        let leaves: Vec<PlaceRef> = all.iter().filter(|p| self.is_copyable(p.base().0) && matches!(p.base().0, Ty::Prim(_))).cloned().collect();
+        let arrays: Vec<PlaceRef> = all.iter().filter(|p| matches!(p.base().0, Ty::Arr(..) | Ty::View(_))).cloned().collect();
+        if !arrays.is_empty() && self.rng.chance(40) {
+            let a = &arrays[self.rng.below(arrays.len())];
+            out.push(json!({"k": "P", "e": {"k": "len", "r": a.plain()}}));
+        }
+        if leaves.is_empty() {
+            return;
+        }
+        let p = leaves[self.rng.below(leaves.len())].clone();
+        let t = if let Ty::Prim(t) = p.base().0 { *t } else { unreachable!() };
+        let can_write = p.writable || p.base().1 > 0;
+        if can_write && self.rng.chance(60) {
+            // write through the parameter: the new value depends on the old one now and then
+            let e = self.expr(t, 1);
+            let e = if t != "bool" && self.rng.chance(50) { json!({"k": "bin", "op": "+", "l": p.reference(0), "r": e}) } else { e };
+            out.push(json!({"k": "A", "r": p.plain(), "e": e}));
+            if self.rng.chance(50) {
+                out.push(json!({"k": "P", "e": p.reference(0)}));
+            }
+        } else {
+            out.push(json!({"k": "P", "e": p.reference(0)}));
+        }
+    }
+    fn call_fn(&mut self, f: &FnSig, out: &mut Vec<Value>) -> bool {
+        let f = f.clone();
         self.calls_left = 0;
         let args = match self.args_for(&f, true) {
             Some(a) => a,
@@ -916,7 +1057,7 @@ impl Gen {
         let et = if let Ty::Prim(t) = elem { t } else { unreachable!() };
         let writable = if is_view { p.base().1 > 0 } else { p.writable || p.base().1 > 0 };
         let i = self.fresh("ix");
-        let lbl = self.fresh("done");
+        let lbl = self.choose_label(Some(self.label_sets.len() - 1));
         out.push(json!({"k": "V", "x": i, "ty": ty_json(&Ty::Prim("usize")), "e": usize_lit(0)}));
         self.declare(&i, Ty::Prim("usize"), true);
         out.push(json!({"k": "O"}));
@@ -934,6 +1075,7 @@ impl Gen {
         out.push(json!({"k": "LP"}));
         out.push(json!({"k": "C"}));
         out.push(json!({"k": "L", "n": lbl}));
+        self.place_label(&lbl);
         true
     }
     fn statements(&mut self, out: &mut Vec<Value>, depth: usize, exit_label: Option<&str>) {
@@ -991,11 +1133,11 @@ impl Gen {
                     // counted loop: var i; { body; if i >= k goto out; i = i + 1; loop; } out:
                     let i = self.fresh("cnt");
                     let k = 1 + self.rng.below(4) as u128;
-                    let lbl = self.fresh("out");
+                    let lbl = self.choose_label(Some(self.label_sets.len() - 1));
                     out.push(json!({"k": "V", "x": i, "ty": ty_json(&Ty::Prim("u8")), "e": lit("u8", 0)}));
                     self.declare(&i, Ty::Prim("u8"), true);
                     out.push(json!({"k": "O"}));
-                    self.scopes.push(Vec::new());
+                    self.open_block();
                     if self.rng.chance(50) {
                         out.push(json!({"k": "P", "e": var(&i)}));
                     }
@@ -1003,18 +1145,20 @@ impl Gen {
                     out.push(json!({"k": "IG", "c": {"op": ">=", "l": var(&i), "r": lit("u8", k)}, "n": lbl}));
                     out.push(json!({"k": "S", "x": i, "e": {"k": "bin", "op": "+", "l": var(&i), "r": lit("u8", 1)}}));
                     out.push(json!({"k": "LP"}));
-                    self.scopes.pop();
+                    self.close_block();
                     out.push(json!({"k": "C"}));
                     out.push(json!({"k": "L", "n": lbl}));
+                    self.place_label(&lbl);
                 }
                 14 if depth < 3 => {
                     // plain block with a label at its end
-                    let lbl = self.fresh("end");
+                    let lbl = self.choose_label(None);
                     out.push(json!({"k": "O"}));
-                    self.scopes.push(Vec::new());
+                    self.open_block();
                     self.statements(out, depth + 1, Some(&lbl));
-                    self.scopes.pop();
                     out.push(json!({"k": "L", "n": lbl}));
+                    self.place_label(&lbl);
+                    self.close_block();
                     out.push(json!({"k": "C"}));
                 }
                 15 | 16 | 17 => {
@@ -1032,9 +1176,9 @@ impl Gen {
         }
     }
     fn block_body(&mut self, out: &mut Vec<Value>, depth: usize, exit_label: Option<&str>) {
-        self.scopes.push(Vec::new());
+        self.open_block();
         self.statements(out, depth, exit_label);
-        self.scopes.pop();
+        self.close_block();
     }
 
     // ---- functions ----
@@ -1070,7 +1214,6 @@ impl Gen {
             let (t, minlen) = self.param_type();
             let p = self.fresh("p");
             params.push(json!({"x": p, "ty": ty_json(&t)}));
-            // element access through a `&[N]T` parameter gives invalid IR (finding): such parameters are only measured and passed on
             let hidden = false;
             self.scopes[0].push(Variable { name: p.clone(), ty: t.clone(), kind: Kind::Param, minlen, depth: 0, hidden });
             sig.push((p, t, minlen));
@@ -1084,6 +1227,8 @@ impl Gen {
         let mut body = Vec::new();
         self.budget = 3 + self.rng.below(7);
         self.has_return_label = ret.is_some() && self.rng.chance(40);
+        self.label_sets = vec![Default::default()];
+        self.pending_labels.clear();
         self.scopes.push(Vec::new());
         // with a `return` label the result is a variable declared first: a `goto return` must not skip the
         // declaration of anything the result uses (E482)
@@ -1097,7 +1242,22 @@ impl Gen {
             self.declare(&rv, rt, false);
             result_var = Some(rv);
         }
+        let ps: Vec<Variable> = self.scopes[0].clone();
+        for v in &ps {
+            if self.rng.chance(75) {
+                self.touch_param(v, &mut body);
+            }
+        }
         self.statements(&mut body, 1, None);
+        if !self.fns.is_empty() && self.rng.chance(50) {
+            let g = self.fns[self.rng.below(self.fns.len())].clone();
+            self.call_with_setup(&g, &mut body);
+        }
+        for v in &ps {
+            if self.rng.chance(35) {
+                self.touch_param(v, &mut body);
+            }
+        }
         let mut f = json!({"name": name, "params": params, "ret": match &ret { Some(t) => ty_json(t), None => json!({"k": "void"}) }});
         if let Some(rt) = &ret {
             match &result_var {
@@ -1132,6 +1292,8 @@ pub fn program(seed: u64, i: u64) -> Value {
         has_return_label: false,
         in_const: false,
         in_cond: false,
+        label_sets: vec![Default::default()],
+        pending_labels: Vec::new(),
     };
     g.gen_structs();
     // constants: scalars, arrays, structures and words (no pointers: E360)
@@ -1161,14 +1323,28 @@ pub fn program(seed: u64, i: u64) -> Value {
         g.consts.push(Variable { name, ty: t, kind: Kind::Const, minlen: 0, depth: 0, hidden: false });
     }
     let mut fns = Vec::new();
-    for _ in 0..g.rng.below(4) {
+    for _ in 0..(1 + g.rng.below(4)) {
         let f = g.function();
         fns.push(f);
     }
     g.scopes = vec![Vec::new()];
+    g.label_sets = vec![Default::default()];
+    g.pending_labels.clear();
     let mut body = Vec::new();
-    g.budget = 6 + g.rng.below(22);
+    g.budget = 4 + g.rng.below(14);
     g.statements(&mut body, 0, None);
+    // every function is called at least once, with the caller's cells printed afterwards
+    let sigs = g.fns.clone();
+    for f in &sigs {
+        g.call_with_setup(f, &mut body);
+        if g.rng.chance(30) {
+            g.budget = 1 + g.rng.below(3);
+            g.statements(&mut body, 0, None);
+        }
+        if g.rng.chance(25) {
+            g.call_with_setup(f, &mut body);
+        }
+    }
     g.calls_left = 1;
     let res = g.expr("u8", 2);
     let mut all = vec![json!({"name": "main", "params": [], "ret": {"k": "prim", "t": "u8"}, "body": body, "res": res})];
